@@ -65,8 +65,8 @@ def tie_cases(seed, draws):
     """Regions (comb / Sigma outlines, holes) given in the sweep frame of TriangulateMesh: every vertex has its own
     integer x, except the members of one or two tie groups (prong tips; a pair of notches between prongs and/or extreme
     vertices of holes), which sit on a common lattice line and are nudged off it by 1e-12 .. 1e-9.  Groups of
-    split/merge vertices (notches, holes) have two members: three of them on one line are three mutually visible
-    vertices colinear to within 1e-10 rad, a different (ill-conditioned) class of input (reported separately as a finding)."""
+    three and more split/merge vertices (notches, holes) on one line are three mutually visible vertices colinear to
+    within 1e-10 rad: the diagonals between them are nearly parallel."""
     import itertools
     import random
     rnd = random.Random(1000 + seed)
@@ -112,6 +112,14 @@ def tie_cases(seed, draws):
     for m in (2, 3, 4):
         pairs = list(itertools.combinations(range(m), 2))
         shapes.append(("holes%d" % m, lambda d, m=m, pairs=pairs: holed(m, pairs[d % len(pairs)])))
+    # three and more split/merge vertices on one sweep line: the diagonals between them leave a vertex in directions
+    # that differ by about 1e-10 rad
+    for m in (3, 4):
+        shapes.append(("holes%d-all" % m, lambda d, m=m: holed(m, tuple(range(m)))))
+    for k in (4, 5):
+        shapes.append(("comb%d-notches-all" % k, lambda d, k=k: comb(k, False, tuple(range(1, k)), (), ())))
+    shapes.append(("comb3-holes-all", lambda d: comb(3, False, (), range(3), (0, 1, 2))))
+    shapes.append(("comb3-notches-holes-all", lambda d: comb(3, False, (1, 2), range(3), (0, 1, 2))))
     # the Sigma of two prongs (doubled coordinates)
     shapes.append(("sigma", lambda d: ([[[0, 6], [10, 8], [11, 0], [0, 2], [6, 4]]], [[(0, 0), (0, 3)]])))
     cases = []
